@@ -60,14 +60,14 @@ Definition cur_token (st : astate) (c : conn) : nat := hd 0 (tokens_of st c).
 Definition inval_matches (i : inval) (c : conn) (r : rid) : bool :=
   match i_c i, i_r i with
   | Some c', _ => Nat.eqb c c'
-  | None, Some r' => Nat.eqb r r'
+  | None, Some r' => Nat.eqb (base_of r) r'
   | None, None => false
   end.
 
 (* a grant usable for (c, r): answered, positive for the predicate, and requested after every settled invalidation *)
 Definition valid_grant (st : astate) (c : conn) (r : rid) (p : bool * list ascii -> bool) : bool :=
   existsb (fun a =>
-    Nat.eqb (a_c a) c && Nat.eqb (a_r a) r &&
+    Nat.eqb (a_c a) c && Nat.eqb (a_r a) (base_of r) &&     (* access is per resource name; the query travels in the payload *)
     match a_ans a with Some (Some g) => p g | _ => false end &&
     forallb (fun i => negb (i_settled i && inval_matches i c r) || Nat.ltb (i_pos i) (a_pos a)) (invals st)) (areqs st).
 
